@@ -105,9 +105,14 @@ def stub_record(rid, rnd, special=None):
     if special == "typedef-array-or-pointer" and not any(d["kind"] in ("aliasarr", "aliasptr") for d in decls):
         decls.append({"kind": "aliasarr", "names": ["arr9"], "target": "uint16", "n": 4, "text": "typedef uint16 arr9[4];", "deps": set(), "key": "arr9"})
     text = "\n".join(d["text"] for d in decls)
-    if special == "anonymous-enum":
-        text += "\nenum : uint8 { AA, BB = 4 };"        # the members of an enumeration without a name are constants
-        consts = dict(consts, AA=0, BB=4)
+    if special == "anonymous-enum" or (special is None and rnd.random() < 0.3):
+        # the members of an enumeration - or a flag - without a name are constants
+        if rnd.random() < 0.5:
+            text += "\nenum : uint8 { AA, BB = 4 };"
+            consts = dict(consts, AA=0, BB=4)
+        else:
+            text += "\nflag : uint16 { FA = 1, FB, FC = 0x10 };"
+            consts = dict(consts, FA=1, FB=2, FC=16)
     if special == "keyword-field":
         text += "\nstruct kw { uint8 in; uint8 ok; };"
     rec = {"id": rid, "decls": spec_decls(decls, range(len(decls))), "consts": [[k, v] for k, v in sorted(consts.items())], "text": text[:1500],
@@ -141,7 +146,7 @@ class StubCheck:
         for _ in range(4000 if thorough else 300):
             recs.append(stub_record(len(recs), rnd))
         for sp in ("typedef-array-or-pointer", "anonymous-enum", "keyword-field"):
-            for _ in range(40 if thorough else 6):
+            for _ in range(40 if thorough else 8):
                 recs.append(stub_record(len(recs), rnd, sp))
         rep.evaluations += len(recs)
         verdicts, _ = tlc.validate_batch("Trace_Stub", recs)
